@@ -29,7 +29,7 @@ def record(cfg, path, call):
     drv = reach(cfg, path)
     pre = drv.project()
     ok, err, emit, ret = drv.apply(call)
-    post = drv.project(queries=True)
+    post = drv.project(queries=not drv.nshift)
     rec = {"path": path, "pre": pre, "c": call, "ok": ok, "err": err, "emit": emit,
            "ret": ret, "post": post}
     if ok and core.KP_ADDNODE <= call[0] <= core.KP_UPDATTRS:
